@@ -128,7 +128,19 @@ fn check_ark(r1: &Recipe, r2: &Recipe, ctx: &mut Ctx) -> Result<(), Failure> {
         let mut via_mul_assign = a1;
         via_mul_assign *= crate::api::arkf::fr(&crate::refmodel::N::from(1u32));
         let via_neg: AA = -(-a1);
-        for (name, x) in [("-=", via_sub_assign), ("-=&", via_sub_assign_ref), ("&-&", via_sub), ("+=&", via_add_assign), ("&+&", via_add), ("*=1", via_mul_assign), ("neg-neg", via_neg)] {
+        // the boundary scalars of the affine multiplication entry points: [1]A, [r+1]A, 1 * A
+        let via_mul_bigint_1: AA = a1.mul_bigint([1u64]).into_affine();
+        let via_mul_bigint_1p: AA = a1.mul_bigint([1u64, 0, 0, 0]).into_affine();
+        let via_mul_bigint_r1: AA = a1.mul_bigint((&crate::refmodel::R.m + 1u32).to_u64_digits()).into_affine();
+        let via_mul_fr_1: AA = (a1 * crate::api::arkf::fr(&crate::refmodel::N::from(1u32))).into_affine();
+        // the same routes without normalising in between: the Element they return must encode / hash like e1
+        for (name, y) in [("mul_bigint([1])", a1.mul_bigint([1u64])), ("mul_bigint([1,0,0,0])", a1.mul_bigint([1u64, 0, 0, 0])), ("A * 1", a1 * crate::api::arkf::fr(&crate::refmodel::N::from(1u32))), ("mul_bigint([2]) - A", a1.mul_bigint([2u64]) - a1)] {
+            ctx.sub_eval();
+            if !(y == e1) || y.vartime_compress().0 != e1.vartime_compress().0 || hashes(&y) != hashes(&e1) {
+                ctx.report(format!("C08|ark:AffinePoint::{name}|encoding-vs-equality"), format!("the element returned by {name} equals the element: {}, same encoding: {}, same hash: {}", y == e1, y.vartime_compress().0 == e1.vartime_compress().0, hashes(&y) == hashes(&e1)))?;
+            }
+        }
+        for (name, x) in [("-=", via_sub_assign), ("-=&", via_sub_assign_ref), ("&-&", via_sub), ("+=&", via_add_assign), ("&+&", via_add), ("*=1", via_mul_assign), ("neg-neg", via_neg), ("mul_bigint([1])", via_mul_bigint_1), ("mul_bigint([1,0,0,0])", via_mul_bigint_1p), ("mul_bigint(r+1)", via_mul_bigint_r1), ("*1", via_mul_fr_1)] {
             ctx.sub_eval();
             let xe: AE = x.into_group();
             if !(x == a1) || !(a1 == x) {
@@ -140,6 +152,21 @@ fn check_ark(r1: &Recipe, r2: &Recipe, ctx: &mut Ctx) -> Result<(), Failure> {
             if hashes(&x) != hashes(&a1) {
                 ctx.report(format!("C08|ark:AffinePoint({name})|hash"), format!("AffinePoint obtained through {name} compares equal to the element but hashes differently"))?;
             }
+        }
+    }
+    // the Encoding type's own ==, != and cmp see every byte
+    {
+        let enc = e1.vartime_compress();
+        for (i, bit) in [(0usize, 1u8), (15, 0x80), (30, 1), (31, 1), (31, 0x10), (31, 0x80)] {
+            ctx.sub_eval();
+            let mut other = enc;
+            other.0[i] ^= bit;
+            if enc == other || !(enc != other) || enc.cmp(&other) == std::cmp::Ordering::Equal || enc.partial_cmp(&other) == Some(std::cmp::Ordering::Equal) {
+                ctx.report("C08|ark:Encoding|eq".to_string(), format!("two encodings that differ in byte {i} compare equal"))?;
+            }
+        }
+        if !(b1 == b2) == (b1.0 == b2.0) || (b1.cmp(&b2) == std::cmp::Ordering::Equal) != (b1.0 == b2.0) {
+            ctx.report("C08|ark:Encoding|eq".to_string(), "Encoding == / cmp disagree with equality of the 32 bytes".to_string())?;
         }
     }
     // identity predicates agree with the model for every representation
@@ -184,6 +211,20 @@ fn check_min(r1: &Recipe, r2: &Recipe, ctx: &mut Ctx) -> Result<(), Failure> {
     }
     if (e1.vartime_compress() == e2.vartime_compress()) != same {
         ctx.report("C08|min:Element|encoding-vs-equality", format!("encodings equal: {}, model elements equal: {}", e1.vartime_compress() == e2.vartime_compress(), same))?;
+    }
+    {
+        let (b1, b2) = (e1.vartime_compress(), e2.vartime_compress());
+        for (i, bit) in [(0usize, 1u8), (15, 0x80), (30, 1), (31, 1), (31, 0x10), (31, 0x80)] {
+            ctx.sub_eval();
+            let mut other = b1;
+            other.0[i] ^= bit;
+            if b1 == other || !(b1 != other) || b1.cmp(&other) == std::cmp::Ordering::Equal || b1.partial_cmp(&other) == Some(std::cmp::Ordering::Equal) {
+                ctx.report("C08|min:Encoding|eq".to_string(), format!("two encodings that differ in byte {i} compare equal"))?;
+            }
+        }
+        if (b1 == b2) != (b1.0 == b2.0) || (b1.cmp(&b2) == std::cmp::Ordering::Equal) != (b1.0 == b2.0) {
+            ctx.report("C08|min:Encoding|eq".to_string(), "Encoding == / cmp disagree with equality of the 32 bytes".to_string())?;
+        }
     }
     for (e, m) in [(e1, &m1), (e2, &m2)] {
         let is_id = c.is_identity_element(&m.pt);
